@@ -335,6 +335,7 @@ func generate(rng *rand.Rand, k Knobs, profile string) *Prog {
 				} else if rng.Float64() < k.PLoop {
 					en.Loop = loopVals[:2+rng.Intn(3)]
 					en.LoopVar = rng.Intn(3) == 0
+					en.AsX = en.LoopVar && t.UsesX && t.XVia == "" && rng.Intn(2) == 0
 				} else if rng.Float64() < k.PMatrix {
 					en.Matrix = randMatrix(rng)
 					en.MatrixRef = rng.Float64() < 0.4
